@@ -51,6 +51,15 @@ pub fn run(a: &Args, rep: &mut Report) {
         "C08" => crate::p_dim::c08(a, rep),
         "C16" => crate::p_nn::c16(a, rep),
         "C17" => crate::p_nn::c17(a, rep),
+        "C05" => crate::p_total::c05(a, rep),
+        "Xsurvey" => {
+            crate::p_total::survey(a);
+            std::process::exit(0);
+        }
+        "C05corpus" => {
+            crate::p_total::corpus_dump(a);
+            std::process::exit(0);
+        }
         "C07" => crate::p_struct::c07(a, rep),
         "C12" => crate::p_struct::c12(a, rep),
         "C13" => crate::p_struct::c13(a, rep),
@@ -62,6 +71,22 @@ pub fn run(a: &Args, rep: &mut Report) {
 }
 
 pub fn replay(a: &Args, path: &Path, rep: &mut Report) -> i32 {
+    // `--replay corpus/<origin>` replays an input of the fixed corpus by name
+    if let Some(name) = path.to_str().filter(|s| s.starts_with("corpus/")) {
+        let Some(case) = vcore::case::corpus(false).into_iter().find(|c| c.origin == name) else {
+            eprintln!("BROKEN: no corpus input named {name}");
+            return 2;
+        };
+        in_pool(|| run_one(&a.id, &case, rep));
+        for v in &rep.violations {
+            println!("VIOLATION property={} replay={name}", v.property);
+            println!("  [{}] {}", v.monitor, v.what);
+            if std::env::var("VERIF_DETAIL").is_ok() {
+                println!("  detail: {}", v.detail);
+            }
+        }
+        return if rep.violations.is_empty() { 0 } else { 1 };
+    }
     let txt = std::fs::read_to_string(path).expect("cannot read replay file");
     let v: serde_json::Value = serde_json::from_str(&txt).expect("replay file is not JSON");
     let Some(cj) = v.get("case").filter(|c| !c.is_null()) else {
@@ -70,7 +95,7 @@ pub fn replay(a: &Args, path: &Path, rep: &mut Report) -> i32 {
     };
     let case = Case::from_json(cj);
     println!("replaying {} on case {} (n={}, dim={}, periodic={})", a.id, case.origin, case.n(), case.dim, case.periodic);
-    run_one(&a.id, &case, rep);
+    in_pool(|| run_one(&a.id, &case, rep));
     let n = rep.violations.len();
     for (k, v) in &rep.counters {
         println!("  counter {k} = {v}");
@@ -81,6 +106,9 @@ pub fn replay(a: &Args, path: &Path, rep: &mut Report) -> i32 {
     for v in &rep.violations {
         println!("VIOLATION property={} replay={}", v.property, path.display());
         println!("  [{}] {}", v.monitor, v.what);
+        if std::env::var("VERIF_DETAIL").is_ok() {
+            println!("  detail: {}", v.detail);
+        }
     }
     if n > 0 {
         1
@@ -101,6 +129,7 @@ pub fn run_one(id: &str, c: &Case, rep: &mut Report) {
         "C08" => crate::p_dim::one_c08(id, c, rep),
         "C16" => crate::p_nn::one_c16(id, c, rep),
         "C17" => crate::p_nn::one_c17(id, c, rep),
+        "C05" => crate::p_total::one_c05(id, c, rep),
         "C07" => crate::p_struct::one_c07(id, c, rep),
         "C12" => crate::p_struct::one_c12(id, c, rep),
         "C13" => crate::p_struct::one_c13(id, c, rep),
